@@ -77,22 +77,7 @@ def body(ck, F, cfg):
     okc = len(side["forks"]) == 1 and [(k, l) for k, l, _ in side["clone_ops"]] == [("challenge_bytes", b"r")] and not side["main_ops_after_fork"]
     ck.require(okc, "R03.2", "r-provenance", f"the weight r must be squeezed from a transcript clone taken after all proof elements were absorbed: clone_ops={side['clone_ops']} absorbed-after-fork={side['main_ops_after_fork']}", where)
     # R03.3 mandatory points: identity guard directly before the append of the same point
-    flat = AN.flat_trace(I.trace.items)
-    guarded, plain = set(), set()
-    from ..sched import atom_name
-
-    for idx, (it, ctx) in enumerate(flat):
-        if it[0] != "op" or it[1]["kind"] != "append_message":
-            continue
-        p = it[1]["payload"]
-        if not (hasattr(p, "parts") and len(p.parts) == 1 and p.parts[0][0] == "uncompressed" and isinstance(p.parts[0][1], Pt)):
-            continue
-        nm = atom_name(p.parts[0][1])
-        if nm is None or not nm.startswith("pf."):
-            continue
-        prev = flat[idx - 1][0] if idx > 0 else None
-        is_g = prev is not None and prev[0] == "guard" and isinstance(prev[1], Cond) and prev[1].op == "iszero" and not prev[1].neg and isinstance(getattr(prev[1], "subject", None), Pt) and atom_name(prev[1].subject) == nm and isinstance(prev[2], Enum) and prev[2].variant == "Err" and "VerificationError" in repr(prev[2])
-        (guarded if is_g else plain).add(nm)
+    guarded, plain = AN.validated_sets(I)
     ck.require(guarded == MANDATORY, "R03.3", "validated-set", f"points absorbed through the identity-rejecting append: {sorted(guarded)}; reference: {sorted(MANDATORY)}", where)
     ck.require(plain == PLAIN, "R03.3", "plain-set", f"points absorbed without identity check: {sorted(plain)}; reference: {sorted(PLAIN)}", where)
     # R03.4 orientation of s and its recurrence
